@@ -357,6 +357,14 @@ func (x *Exec) zzverifEnv(name string, c *CallCtx) (Value, bool) {
 		}
 		e.RowInv[x.constStr(a[0], "table name")] = f
 		return nil, true
+	case "OrmOnTouch":
+		f, ok := unwrapIface(a[1]).(FuncV)
+		if !ok {
+			x.Unsupported("OrmOnTouch needs a function")
+		}
+		t := x.constStr(a[0], "table name")
+		e.OnTouch[t] = append(e.OnTouch[t], f)
+		return nil, true
 	case "OrmBegin":
 		e.snapshot = e.checkpoint()
 		return nil, true
